@@ -387,6 +387,124 @@ def run_abs_sign(facts, rep, files=None):
     return n
 
 
+SIGNED = ("i8", "i16", "i32", "i64", "i128", "isize")
+
+
+def run_sign_loop(facts, rep, files=None):
+    """R-CONTRA(signloop): a digit-extraction loop `while v > 0 { ..; v = (..) >> k }` over a SIGNED value ends with v == 0 — the
+    invariant  original = v * 2^i + sum(digits)  then gives the decomposition — only if v is non-negative when the loop is
+    entered.  If nothing before the loop makes it so (abs, a refusal / early return on negative values), every negative input
+    skips the loop and the function returns its initial (empty) result: the negative half of the domain is lost."""
+    R = "R-CONTRA(signloop)"
+    rep.rule(R, "a `while v > 0` halving loop over a signed value is entered only with v made non-negative (abs) or with "
+             "negative values refused; otherwise negative inputs produce the loop's initial result")
+    n = 0
+    # the expected count on a healthy tree may be zero (a `!= 0` guard is equally right): keep a positive example that must match
+    ti = None
+    for i_, s_ in enumerate(facts.strs):
+        if s_ == "i32":
+            ti = i_
+    V = {"k": "Path", "res": "local", "lid": 1, "name": "v", "t": ti}
+    syn = {"k": "Block", "stmts": [{"k": "Expr", "e": {"k": "While", "l": 1, "c": {"k": "Bin", "op": ">", "a": V, "b": {"k": "Lit", "v": "0"}},
+           "body": {"k": "Block", "stmts": [{"k": "Semi", "e": {"k": "Assign", "lhs": V, "rhs": {"k": "Bin", "op": ">>", "a": V,
+                                                                                                "b": {"k": "Lit", "v": "1"}}}}]}}}]}
+    todo = [("<self-test>", {"file": "rules/r_contra.py", "params": [{"pat": {"k": "PBind", "lid": 1, "name": "v"}}], "l": 0}, syn)]
+    for p in sorted(facts.hir):
+        it = facts.items[p]
+        if files is not None and it["file"] not in files:
+            continue
+        if "::tests::" in p:
+            continue
+        todo.append((p, it, facts.hir[p]))
+    selftest_hit = False
+    for p, it, body in todo:
+        whiles = [x for x in walk(body) if x.get("k") == "While"]
+        if not whiles:
+            continue
+        order = {id(x): i for i, x in enumerate(walk(body))}
+        params = {prm["pat"]["lid"] for prm in it["params"] if prm["pat"].get("k") == "PBind"}
+        for kw, w in enumerate(whiles):
+            c = strip(w["c"])
+            if c.get("k") != "Bin":
+                continue
+            v = None
+            a, b = strip(c["a"]), strip(c["b"])
+
+            def lit(e, vals):
+                return e.get("k") == "Lit" and str(e.get("v", "")).split("_")[0] in vals
+            if c["op"] == ">" and local_of(a) and lit(b, ("0",)):
+                v = local_of(a)
+            elif c["op"] == ">=" and local_of(a) and lit(b, ("1",)):
+                v = local_of(a)
+            elif c["op"] == "<" and local_of(b) and lit(a, ("0",)):
+                v = local_of(b)
+            if not v or facts.ty(a if local_of(a) else b) not in SIGNED:
+                continue
+            halves = False
+            for y in walk(w["body"]):
+                if y.get("k") == "Assign" and local_of(y["lhs"]) and local_of(y["lhs"])[0] == v[0]:
+                    r = strip(y["rhs"])
+                    if r.get("k") == "Bin" and r.get("op") in (">>", "/"):
+                        halves = True
+                if y.get("k") == "AssignOp" and local_of(y["lhs"]) and local_of(y["lhs"])[0] == v[0] and y.get("op") in (">>", "/", ">>=", "/="):
+                    halves = True
+            if not halves:
+                continue
+            if p == "<self-test>":
+                selftest_hit = True
+                continue
+            n += 1
+            rep.fn(p)
+            key = "%s/while#%d/%s" % (p, kw, v[1])
+            # non-negativity established before the loop?
+            established = None
+            for y in walk(body):
+                if order[id(y)] >= order[id(w)]:
+                    break
+                k = y.get("k")
+                rhs = None
+                if k == "Assign" and local_of(y["lhs"]) and local_of(y["lhs"])[0] == v[0]:
+                    rhs = y["rhs"]
+                if k == "Let" and y["pat"].get("k") == "PBind" and y["pat"]["lid"] == v[0] and "init" in y:
+                    rhs = y["init"]
+                if rhs is not None:
+                    r = strip(rhs)
+                    if r.get("k") == "MCall" and r.get("name") in ("abs", "unsigned_abs", "wrapping_abs"):
+                        established = "abs"
+                    elif r.get("k") == "Cast" and facts.ty(r["e"]).startswith("u"):
+                        established = "from an unsigned value"
+                    elif r.get("k") == "If":
+                        established = established or "conditional normalisation"
+                    else:
+                        established = None if established != "refusal" else established
+                if k == "If":
+                    cc = strip(y["c"])
+                    reads_v = any(local_of(z) and local_of(z)[0] == v[0] for z in walk(cc))
+                    neg = cc.get("k") == "Bin" and cc.get("op") in ("<", "<=") and local_of(cc["a"]) and local_of(cc["a"])[0] == v[0]
+                    if reads_v and neg and (facts.ty(y["th"]) == "!" or any(z.get("k") in ("Ret",) for z in walk(y["th"]))):
+                        established = "refusal"
+                    elif reads_v and neg and any(z.get("k") == "Assign" and local_of(z["lhs"]) and local_of(z["lhs"])[0] == v[0]
+                                                 for z in walk(y["th"])):
+                        established = "conditional negation"
+            from_param = v[0] in params
+            if established:
+                rep.ok(R, key, "`%s` is non-negative at loop entry (%s)" % (v[1], established), facts.loc(p, w),
+                       sample={"function": p, "variable": v[1], "by": established})
+            elif from_param:
+                rep.violation(R, key, "`%s` is a signed parameter used as it arrives; the digit loop runs only while `%s > 0` and halves "
+                              "it: for every negative input the loop is skipped and the function returns its initial (empty) result — "
+                              "nothing before the loop takes the absolute value or refuses negative values" % (v[1], v[1]),
+                              facts.loc(p, w))
+            else:
+                rep.unresolved(R, key, "sign of `%s` at loop entry not established by a recognised form" % v[1], facts.loc(p, w))
+    if selftest_hit:
+        rep.ok(R, "self-test", "the matcher recognises `while v > 0 { v = v >> 1 }` over a signed parameter", "rules/r_contra.py",
+               nontrivial=False)
+    else:
+        rep.violation(R, "self-test", "the halving-loop matcher no longer recognises its positive example")
+    return n
+
+
 def _len_recv(e):
     """root local of X in `X.len()` (through - 1), else None"""
     e = strip(e)
